@@ -93,7 +93,6 @@ pub fn drive(args: &[String]) -> i32 {
             // remainder m the prefix of accepting uniform words
             let p: f64 = c["p"].as_str().unwrap().parse().unwrap();
             let triv = c["triv"].as_bool().unwrap();
-            let kk = c["k"].as_u64().unwrap();
             let ms: Vec<u64> = c["ms"].as_array().unwrap().iter().map(|x| x.as_str().unwrap().parse().unwrap()).collect();
             let above = ((0.99f64 * 9007199254740992.0) as u64) << 11;      // u = 0.99: above every pi (<= 1/2) and fails the trivial test only for p < 0.99
             let res = guarded(|| -> Vec<Value> {
@@ -111,11 +110,13 @@ pub fn drive(args: &[String]) -> i32 {
                 let (ok_, nk) = call([above, u64::MAX, 0, 0]);
                 let kmeas = if ok_ < u64::MAX && (ok_ + 1).is_power_of_two() { (ok_ + 1).trailing_zeros() as i64 } else { -1 };
                 evs.push(json!({"op": "geok", "case": id, "out_ok": nk == 3 && kmeas >= 1, "k": kmeas, "T": [0], "show": [format!("{}", ok_)]}));
+                if kmeas < 1 { return evs; }
+                let kk = kmeas as u64;
                 // pi: first word w continues the D loop iff u(w) < pi: then [above] ends it, remainder 0 accepted by u = 0: result 2^k after 4 words
                 let cont = |o: (u64, u64)| o == (1u64 << kk, 4);
                 let (o0, n0) = call([0, above, 0, 0]);
                 let t = first_true(0, ALL, |w| !cont(call([w as u64, above, 0, 0])));
-                evs.push(json!({"op": "geopi", "case": id, "out_ok": cont((o0, n0)) && call([u64::MAX, 0, 0, 0]) == (0, 3), "T": l14(t), "show": [format!("{:.15}", t as f64 / 18446744073709551616.0)]}));
+                evs.push(json!({"op": "geopi", "case": id, "k": kmeas, "out_ok": cont((o0, n0)) && call([u64::MAX, 0, 0, 0]) == (0, 3), "T": l14(t), "show": [format!("{:.15}", t as f64 / 18446744073709551616.0)]}));
                 for (i, &m) in ms.iter().enumerate() {
                     let mw = (0xA5A5_5A5A_C3C3_3C3Cu64 << kk.min(63)) | m;       // high bits must be masked away
                     let (o0, n0) = call([above, mw, 0, 0]);
@@ -127,6 +128,37 @@ pub fn drive(args: &[String]) -> i32 {
             match res {
                 Ok(evs) => for mut e in evs { e["res"] = json!("Ok"); out.push(e.to_string()); },
                 Err(p) => out.push(json!({"op": "geok", "case": id, "out_ok": false, "k": -1, "T": [0], "res": format!("Panic: {}", p)}).to_string()),
+            }
+            continue;
+        }
+        if c.get("kernel").and_then(|k| k.as_str()) == Some("binv") {
+            // BINV: one word per try; X' (= X, or n - X when the constructor flipped p) is non-decreasing in the word; a try is repeated
+            // when the search passes 110.  W1 = number of one-word returns (a prefix), T[x] = number of those with X' <= x (a prefix).
+            let n: u64 = c["n"].as_str().unwrap().parse().unwrap();
+            let p: f64 = c["p"].as_str().unwrap().parse().unwrap();
+            let flipped = c["flipped"].as_bool().unwrap();
+            let xs: Vec<u64> = c["xs"].as_array().unwrap().iter().map(|x| x.as_u64().unwrap()).collect();
+            let res = guarded(|| -> Value {
+                let d = Binomial::new(n, p).expect("constructor");
+                let mut r = ScriptRng::new(vec![0], 0);
+                let mut call = |w: u64| -> (u64, u64) { r.prefix[0] = w; r.pos = 0; r.state = 37 ^ w; r.n32 = 0; r.n64 = 0; r.nbytes = 0; let o = d.sample(&mut r); (if flipped { n.wrapping_sub(o) } else { o }, r.words()) };
+                let w1 = first_true(0, ALL, |w| call(w as u64).1 != 1);
+                let mut ts = vec![]; let mut mono = true; let mut prev = 0u128;
+                for &x in &xs {
+                    let t = if w1 == 0 { 0 } else { first_true(0, w1 - 1, |w| call(w as u64).0 > x) };
+                    if t < prev { mono = false; }
+                    prev = t;
+                    ts.push(l14(t));
+                }
+                // spot checks of monotonicity on a coarse grid of words
+                let mut last = 0u64;
+                for i in 0..4096u64 { let w = i << 52; if (w as u128) < w1 { let o = call(w).0; if o < last { mono = false; } last = o; } }
+                json!({"op": "binv", "case": id, "mono": mono, "W1": l14(w1), "T": ts,
+                       "show": [format!("{}", n), format!("{:e}", p), format!("{:.3e}", 1.0 - w1 as f64 / 18446744073709551616.0), format!("{:.12}", first_true(0, ALL, |w| call(w as u64) != (0, 1)) as f64 / 18446744073709551616.0)]})
+            });
+            match res {
+                Ok(mut e) => { e["res"] = json!("Ok"); out.push(e.to_string()); },
+                Err(p) => out.push(json!({"op": "binv", "case": id, "mono": false, "W1": [0], "T": [], "res": format!("Panic: {}", p)}).to_string()),
             }
             continue;
         }
